@@ -918,13 +918,17 @@ fn fixed_lengths() -> (Vec<u8>, Vec<u8>) {
 }
 
 fn emit_tokens(w: &mut BitW, toks: &[Tok], lit_len: &[u8], dist_len: &[u8]) {
-    emit_tokens_poison(w, toks, lit_len, dist_len, None)
+    emit_tokens_poison(w, toks, lit_len, dist_len, None, false)
 }
 
 /// `poison`: a literal/length symbol (with 13 arbitrary bits after it) written before the
 /// end-of-block symbol: used to build INVALID streams, e.g. a length symbol in a block whose
 /// header declares no distance code at all
-fn emit_tokens_poison(w: &mut BitW, toks: &[Tok], lit_len: &[u8], dist_len: &[u8], poison: Option<(usize, u32)>) {
+/// `alias`: when the distance table has a single code of length 1 (codeword `0`), write the
+/// UNASSIGNED codeword `1` instead (an invalid stream that a lenient decoder may map to the
+/// same symbol)
+fn emit_tokens_poison(w: &mut BitW, toks: &[Tok], lit_len: &[u8], dist_len: &[u8], poison: Option<(usize, u32)>, alias: bool) {
+    let single_dist = dist_len.iter().filter(|&&l| l != 0).count() == 1 && dist_len.iter().any(|&l| l == 1);
     let lit_codes = canonical_codes(lit_len);
     let dist_codes = canonical_codes(dist_len);
     for t in toks {
@@ -939,7 +943,11 @@ fn emit_tokens_poison(w: &mut BitW, toks: &[Tok], lit_len: &[u8], dist_len: &[u8
                 w.put_code(lit_codes[ls], lit_len[ls]);
                 w.put(lv as u32, lb as u32);
                 let (ds, db, dv) = dist_code(dist);
-                w.put_code(dist_codes[ds], dist_len[ds]);
+                if alias && single_dist {
+                    w.put(1, 1);
+                } else {
+                    w.put_code(dist_codes[ds], dist_len[ds]);
+                }
                 w.put(dv as u32, db as u32);
             }
         }
@@ -1152,7 +1160,11 @@ pub fn encode_tokens(
                 ll2.resize(288, 0);
                 let mut dl2 = dl.clone();
                 dl2.resize(32, 0);
-                emit_tokens_poison(&mut w, btoks, &ll2, &dl2, poison);
+                let alias = feat.single_dist_code && has_refs && mix.chance(35);
+                if alias {
+                    feat.poisoned = true;
+                }
+                emit_tokens_poison(&mut w, btoks, &ll2, &dl2, poison, alias);
             }
         }
         ppos += plen;
